@@ -79,7 +79,9 @@ class Gated:
 
     def _line(self, frame, event, arg):
         if event == "line":
-            self.W.point("line", lineno=frame.f_lineno, func=frame.f_code.co_name)
+            m = self.W.macro
+            if m is None or m():        # macro step: only park when a statement changed the projected data (checked on this thread)
+                self.W.point("line", lineno=frame.f_lineno, func=frame.f_code.co_name)
         return self._line
 
     def _body(self):
@@ -121,6 +123,7 @@ class World:
         self.main_sem = threading.Semaphore(0)
         self.abort = False
         self.now = 0.0
+        self.macro = None         # during a macro step: callable -> True when the projected data differ from those at its start
         self.spawn_hook = None    # called with (target, name) when the code under test creates a Thread; returns (role, trace)
         self.log = []
 
@@ -417,14 +420,14 @@ class FakeKernel:
         self.procs[pid] = dict(state="run", sts=None, code=None, disp=disp, sigs=[], late=0, lost=0)
         return pid
 
-    def exit(self, pid, code):
+    def exit(self, pid, code, core=False):
         """The process ends by itself with exit code `code` (>= 0) or is ended by signal -code."""
         p = self.procs[pid]
         if p["state"] != "run":
             raise NotEnabled("process %d is not running" % pid)
         p["state"] = "zombie"
         p["code"] = code
-        p["sts"] = (code << 8) if code >= 0 else (-code)
+        p["sts"] = (code << 8) if code >= 0 else ((-code) | (0x80 if core else 0))
 
     # -- os.kill / os.waitpid ------------------------------------------------------------------------------------------
     def kill(self, pid, sig):
@@ -651,11 +654,11 @@ class TaskDriver:
     def _thread_step(self, g, **kw):
         """Run g until a statement changed the projected data, or it blocks / reaches a call-back / ends."""
         before = self.data()
-        while True:
-            at = W.step(g, **kw)
-            kw = {}
-            if at[0] != "line" or self.data() != before:
-                return at
+        W.macro = lambda: self.data() != before
+        try:
+            return W.step(g, **kw)
+        finally:
+            W.macro = None
 
     def raw_step(self, g, **kw):
         """One source line (random runs)."""
@@ -1000,7 +1003,8 @@ class SimDriver:
             return None
         c = t._sim_condition
         return (t._real_state, t._real_return_code, t._observed_state, t._observed_return_code, t._finished_event.flag,
-                tuple(sorted(f for f in os.listdir(self.dir) if f in ("finished.txt", "killed.txt"))), len(W.threads), tuple(self.seen))
+                os.path.exists(os.path.join(self.dir, "finished.txt")), os.path.exists(os.path.join(self.dir, "killed.txt")), len(W.threads),
+                tuple(self.seen))
 
     def _notified(self):
         g = self.run_g
@@ -1038,11 +1042,11 @@ class SimDriver:
         if g is None:
             raise NotEnabled("no such thread")
         before = self.data()
-        while True:
-            at = W.step(g, **kw)
-            kw = {}
-            if at[0] != "line" or self.data() != before:
-                return at
+        W.macro = lambda: self.data() != before
+        try:
+            return W.step(g, **kw)
+        finally:
+            W.macro = None
 
     def view(self):
         t = self.task
@@ -1064,9 +1068,10 @@ class SimDriver:
     @classmethod
     def spec_state(cls, arr):
         d = dict(zip(cls.FIELDS, arr))
-        held = d["srun"] in ("x1", "u1", "e2", "e3", "f1", "k1")
+        held = d["srun"] in ("x1", "u1", "e2", "e2n", "e3", "f1", "k1", "e4")
         waiting = d["srun"] == "cwait"
-        d["srun"] = {"new": "ready", "cwait": "condwait", "x1": "ready", "u1": "ready", "e2": "ready", "e3": "ready", "f1": "ready", "k1": "ready"}.get(d["srun"], d["srun"])
+        d["srun"] = {"new": "ready", "cwait": "condwait", "x1": "ready", "u1": "ready", "e2": "ready", "e2n": "ready", "e3": "ready", "f1": "ready",
+                     "k1": "ready", "e4": "ready", "rel": "ready"}.get(d["srun"], d["srun"])
         d["spoll"] = {"new": "ready", "a": "ready", "b": "ready", "c": "ready"}.get(d["spoll"], d["spoll"])
         d["scall"] = {"new": "ready", "k1": "ready"}.get(d["scall"], d["scall"])
         d["swait"] = {"new": "ready", "blocked": "evwait"}.get(d["swait"], d["swait"])
